@@ -475,13 +475,18 @@ def exec_params(rng, R, C, big=False):
           "mix_threshold": rng.choice(["1/16", "1/32", "1/2", "0"]), "mix_wash": rng.choice([1, 2, 3, "flush", "reuse"]),
           "mix_repeat": rng.choice([0, 1, 2, 2, 3]), "mix_volume": rng.choice(["3/4", "1/2", "1/4", "7/8", "1", "1"]), "sufficient": suff,
           "stock_exact": rng.random() < 0.3}
+    if rng.random() < 0.2:
+        # troughs created through the base class are troughs too
+        labware[rng.choice([0, 1])]["via_labware"] = True
     if rng.random() < 0.25:
         # the documented configuration: stock and diluent are two columns of ONE trough
         labware[0]["cols"] = rng.choice([2, 3])
         ex["stock_column"] = rng.randrange(labware[0]["cols"])
         ex["diluent"] = 0
         ex["diluent_column"] = (ex["stock_column"] + 1 + rng.randrange(labware[0]["cols"] - 1)) % labware[0]["cols"]
-    if labware[0]["cols"] > 1:
+    if labware[0]["cols"] > 1 and labware[0].get("via_labware"):
+        ex["stock_component"] = "stock.A%02d" % (ex["stock_column"] + 1)  # the base class names wells, not columns
+    elif labware[0]["cols"] > 1:
         ex["stock_component"] = "stock.column_%02d" % (ex["stock_column"] + 1)
     else:
         ex["stock_component"] = "stock"
